@@ -29,7 +29,7 @@ Lemma C04_power_accumulation_main :
          (Rth : ring_theory rO rI radd rmul rsub ropp (@eq R)) (n : nat) (contrib pw : nat -> img R) (garbage : img R) (batches : list (list nat)) (k1 k2 : nat),
     Permutation (concat batches) (seq 0 n) ->
     accumulated_power rO radd n contrib pw garbage batches k1 k2 = suml rO radd (map (fun j => pw j k1 k2) (seq 0 n)).
-Proof. intros. eapply power_accumulation; eassumption. Qed.
+Proof. intros. eapply power_accumulation; try eassumption; try exact (fun P : img R => P). Qed.
 
 Lemma C04_batch_invariant_two_pass_main :
   forall (R : Type) (rO rI : R) (radd rmul rsub : R -> R -> R) (ropp : R -> R)
@@ -42,7 +42,7 @@ Lemma C04_batch_invariant_two_pass_main :
     1 <= b -> j < n -> r1 < N1 -> r2 < N2 ->
     length (reconstruct_two rO radd rmul conj half rinv N1 N2 w1 w2 Ninv1 Ninv2 n contrib pw wt env normf garbage (batches_of n b)) = n /\ length (reconstruct_two rO radd rmul conj half rinv N1 N2 w1 w2 Ninv1 Ninv2 n contrib pw wt env normf garbage [seq 0 n]) = n /\
     nth j (reconstruct_two rO radd rmul conj half rinv N1 N2 w1 w2 Ninv1 Ninv2 n contrib pw wt env normf garbage (batches_of n b)) d r1 r2 = nth j (reconstruct_two rO radd rmul conj half rinv N1 N2 w1 w2 Ninv1 Ninv2 n contrib pw wt env normf garbage [seq 0 n]) d r1 r2.
-Proof. intros. eapply batch_invariant_two_lemma; eassumption. Qed.
+Proof. intros. eapply batch_invariant_two_lemma; try eassumption; try exact (fun P : img R => P). Qed.
 
 Lemma C04_batch_invariant_two_pass_any_partition_main :
   forall (R : Type) (rO rI : R) (radd rmul rsub : R -> R -> R) (ropp : R -> R)
@@ -55,7 +55,7 @@ Lemma C04_batch_invariant_two_pass_any_partition_main :
     Permutation (concat batches) (seq 0 n) -> Permutation (concat batches') (seq 0 n) ->
     j < n -> r1 < N1 -> r2 < N2 ->
     nth j (reconstruct_two rO radd rmul conj half rinv N1 N2 w1 w2 Ninv1 Ninv2 n contrib pw wt env normf garbage batches) d r1 r2 = nth j (reconstruct_two rO radd rmul conj half rinv N1 N2 w1 w2 Ninv1 Ninv2 n contrib pw wt env normf garbage batches') d r1 r2.
-Proof. intros. eapply batch_invariant_two_any; eassumption. Qed.
+Proof. intros. eapply batch_invariant_two_any; try eassumption; try exact (fun P : img R => P). Qed.
 
 Lemma C04_linear_in_stack_single_pass_main :
   forall (R : Type) (rO rI : R) (radd rmul rsub : R -> R -> R) (ropp : R -> R)
@@ -73,7 +73,7 @@ Lemma C04_linear_in_stack_single_pass_main :
     1 <= bs -> j < ctx_n sub -> r1 < N1 -> r2 < N2 ->
     nth j (recon_mask_single rO radd rmul conj half rinv n1 n2 ws1 ws2 N1 N2 w1 w2 Ninv1 Ninv2 kern wtd (fun m i j => radd (rmul a (s1 m i j)) (rmul b (s2 m i j))) env garbage full sub bs) d r1 r2
     = radd (rmul a (nth j (recon_mask_single rO radd rmul conj half rinv n1 n2 ws1 ws2 N1 N2 w1 w2 Ninv1 Ninv2 kern wtd s1 env garbage full sub bs) d r1 r2)) (rmul b (nth j (recon_mask_single rO radd rmul conj half rinv n1 n2 ws1 ws2 N1 N2 w1 w2 Ninv1 Ninv2 kern wtd s2 env garbage full sub bs) d r1 r2)).
-Proof. intros. eapply (linear_single_lemma R rO rI radd rmul rsub ropp Rth conj Cok half rinv n1 ws1 ninv1 n2 ws2 ninv2 Roks1 Roks2 N1 w1 Ninv1 N2 w2 Ninv2 Rok1 Rok2); eassumption. Qed.
+Proof. intros. eapply (linear_single_lemma R rO rI radd rmul rsub ropp Rth conj Cok half rinv n1 ws1 ninv1 n2 ws2 ninv2 Roks1 Roks2 N1 w1 Ninv1 N2 w2 Ninv2 Rok1 Rok2); try eassumption; try exact (fun P : img R => P). Qed.
 
 Lemma C04_linear_in_stack_two_pass_main :
   forall (R : Type) (rO rI : R) (radd rmul rsub : R -> R -> R) (ropp : R -> R)
@@ -94,7 +94,7 @@ Lemma C04_linear_in_stack_two_pass_main :
     1 <= bs -> j < ctx_n sub -> r1 < N1 -> r2 < N2 ->
     nth j (recon_mask_two rO radd rmul conj half rinv n1 n2 ws1 ws2 N1 N2 w1 w2 Ninv1 Ninv2 kern pwd wtd (fun m i j => radd (rmul a (s1 m i j)) (rmul b (s2 m i j))) env normf garbage full sub bs) d r1 r2
     = radd (rmul a (nth j (recon_mask_two rO radd rmul conj half rinv n1 n2 ws1 ws2 N1 N2 w1 w2 Ninv1 Ninv2 kern pwd wtd s1 env normf garbage full sub bs) d r1 r2)) (rmul b (nth j (recon_mask_two rO radd rmul conj half rinv n1 n2 ws1 ws2 N1 N2 w1 w2 Ninv1 Ninv2 kern pwd wtd s2 env normf garbage full sub bs) d r1 r2)).
-Proof. intros. eapply (linear_two_lemma R rO rI radd rmul rsub ropp Rth conj Cok half rinv n1 ws1 ninv1 n2 ws2 ninv2 Roks1 Roks2 N1 w1 Ninv1 N2 w2 Ninv2 Rok1 Rok2); eassumption. Qed.
+Proof. intros. eapply (linear_two_lemma R rO rI radd rmul rsub ropp Rth conj Cok half rinv n1 ws1 ninv1 n2 ws2 ninv2 Roks1 Roks2 N1 w1 Ninv1 N2 w2 Ninv2 Rok1 Rok2); try eassumption; try exact (fun P : img R => P). Qed.
 
 Lemma C04_index_map_correct_main :
   forall full sub : mask2, same_shape full sub -> submask full sub ->
@@ -123,7 +123,7 @@ Lemma C04_submask_recombine_main :
     1 <= bF -> rmul (bf_weights rO radd (ctx_n full) (ctx_wt wtd full)) (rinv (bf_weights rO radd (ctx_n full) (ctx_wt wtd full))) = rI ->
     suml rO radd (map (fun part => rmul (bf_weights rO radd (ctx_n part) (ctx_wt wtd part)) (corrected_bf rO radd (recon_mask_single rO radd rmul conj half rinv n1 n2 ws1 ws2 N1 N2 w1 w2 Ninv1 Ninv2 kern wtd stack env garbage full part (bsz part)) r1 r2)) parts)
     = rmul (bf_weights rO radd (ctx_n full) (ctx_wt wtd full)) (corrected_bf rO radd (recon_mask_single rO radd rmul conj half rinv n1 n2 ws1 ws2 N1 N2 w1 w2 Ninv1 Ninv2 kern wtd stack env garbage full full bF) r1 r2).
-Proof. intros. eapply submask_recombine_lemma; eassumption. Qed.
+Proof. intros. eapply submask_recombine_lemma; try eassumption; try exact (fun P : img R => P). Qed.
 
 Lemma C04_submask_stack_entry_main :
   forall (R : Type) (rO rI : R) (radd rmul rsub : R -> R -> R) (ropp : R -> R)
@@ -137,7 +137,7 @@ Lemma C04_submask_stack_entry_main :
     rmul (bf_weights rO radd (ctx_n sub) (ctx_wt wtd sub)) (rinv (bf_weights rO radd (ctx_n sub) (ctx_wt wtd sub))) = rI -> rmul (bf_weights rO radd (ctx_n full) (ctx_wt wtd full)) (rinv (bf_weights rO radd (ctx_n full) (ctx_wt wtd full))) = rI ->
     rmul (bf_weights rO radd (ctx_n sub) (ctx_wt wtd sub)) (nth j (recon_mask_single rO radd rmul conj half rinv n1 n2 ws1 ws2 N1 N2 w1 w2 Ninv1 Ninv2 kern wtd stack env garbage full sub bs) d r1 r2)
     = rmul (bf_weights rO radd (ctx_n full) (ctx_wt wtd full)) (nth (nth j (index_map full sub) 0) (recon_mask_single rO radd rmul conj half rinv n1 n2 ws1 ws2 N1 N2 w1 w2 Ninv1 Ninv2 kern wtd stack env garbage full full bF) d r1 r2).
-Proof. intros. eapply submask_stack_lemma; eassumption. Qed.
+Proof. intros. eapply submask_stack_lemma; try eassumption; try exact (fun P : img R => P). Qed.
 
 Lemma C04_parallax_zero_aberration_main :
   forall (R : Type) (rO rI : R) (radd rmul rsub : R -> R -> R) (ropp : R -> R)
@@ -154,8 +154,8 @@ Lemma C04_parallax_zero_aberration_main :
     (forall i k, conj ((stack (nth j (index_map full sub) 0)) i k) = (stack (nth j (index_map full sub) 0)) i k) ->
     1 <= b -> j < ctx_n sub -> r1 < N1 -> r2 < N2 ->
     nth j (recon_mask_single rO radd rmul conj half rinv n1 n2 ws1 ws2 N1 N2 w1 w2 Ninv1 Ninv2 (kern_mult rmul g) wtd stack env garbage full sub b) d r1 r2
-    = rmul (upsample2 rO u (fun i j => rsub ((stack (nth j (index_map full sub) 0)) i j) (rmul (rmul ninv1 ninv2) (sum2 rO radd n1 n2 ((stack (nth j (index_map full sub) 0)))))) r1 r2) (rinv (bf_weights rO radd (ctx_n sub) (ctx_wt wtd sub))).
-Proof. intros. eapply (parallax_zero_aberration_lemma R rO rI radd rmul rsub ropp Rth conj Cok half rinv n1 ws1 ninv1 n2 ws2 ninv2 Roks1 Roks2 N1 w1 Ninv1 N2 w2 Ninv2 Rok1 Rok2 u Hu HN1 HN2 Hws1 Hws2); eassumption. Qed.
+    = rmul (upsample2 rO u (fun x1 x2 => rsub ((stack (nth j (index_map full sub) 0)) x1 x2) (rmul (rmul ninv1 ninv2) (sum2 rO radd n1 n2 ((stack (nth j (index_map full sub) 0)))))) r1 r2) (rinv (bf_weights rO radd (ctx_n sub) (ctx_wt wtd sub))).
+Proof. intros. eapply (parallax_zero_aberration_lemma R rO rI radd rmul rsub ropp Rth conj Cok half rinv n1 ws1 ninv1 n2 ws2 ninv2 Roks1 Roks2 N1 w1 Ninv1 N2 w2 Ninv2 Rok1 Rok2 u Hu HN1 HN2 Hws1 Hws2 g wtd env garbage stack); try eassumption; try exact (fun P : img R => P). Qed.
 
 Lemma C04_parallax_zero_aberration_bf_main :
   forall (R : Type) (rO rI : R) (radd rmul rsub : R -> R -> R) (ropp : R -> R)
@@ -172,8 +172,8 @@ Lemma C04_parallax_zero_aberration_bf_main :
     (forall m i k, conj (stack m i k) = stack m i k) ->
     1 <= b -> r1 < N1 -> r2 < N2 ->
     corrected_bf rO radd (recon_mask_single rO radd rmul conj half rinv n1 n2 ws1 ws2 N1 N2 w1 w2 Ninv1 Ninv2 (kern_mult rmul g) wtd stack env garbage full sub b) r1 r2
-    = rmul (suml rO radd (map (fun j => upsample2 rO u (fun i j => rsub ((stack (nth j (index_map full sub) 0)) i j) (rmul (rmul ninv1 ninv2) (sum2 rO radd n1 n2 ((stack (nth j (index_map full sub) 0)))))) r1 r2) (seq 0 (ctx_n sub)))) (rinv (bf_weights rO radd (ctx_n sub) (ctx_wt wtd sub))).
-Proof. intros. eapply (parallax_zero_aberration_bf_lemma R rO rI radd rmul rsub ropp Rth conj Cok half rinv n1 ws1 ninv1 n2 ws2 ninv2 Roks1 Roks2 N1 w1 Ninv1 N2 w2 Ninv2 Rok1 Rok2 u Hu HN1 HN2 Hws1 Hws2); eassumption. Qed.
+    = rmul (suml rO radd (map (fun j => upsample2 rO u (fun x1 x2 => rsub ((stack (nth j (index_map full sub) 0)) x1 x2) (rmul (rmul ninv1 ninv2) (sum2 rO radd n1 n2 ((stack (nth j (index_map full sub) 0)))))) r1 r2) (seq 0 (ctx_n sub)))) (rinv (bf_weights rO radd (ctx_n sub) (ctx_wt wtd sub))).
+Proof. intros. eapply (parallax_zero_aberration_bf_lemma R rO rI radd rmul rsub ropp Rth conj Cok half rinv n1 ws1 ninv1 n2 ws2 ninv2 Roks1 Roks2 N1 w1 Ninv1 N2 w2 Ninv2 Rok1 Rok2 u Hu HN1 HN2 Hws1 Hws2 g wtd env garbage stack); try eassumption; try exact (fun P : img R => P). Qed.
 
 Lemma C04_parallax_shift_main :
   forall (R : Type) (rO rI : R) (radd rmul rsub : R -> R -> R) (ropp : R -> R)
@@ -191,8 +191,8 @@ Lemma C04_parallax_shift_main :
     (forall i k, conj ((stack (nth j (index_map full sub) 0)) i k) = (stack (nth j (index_map full sub) 0)) i k) ->
     1 <= b -> j < ctx_n sub -> r1 < N1 -> r2 < N2 ->
     nth j (recon_mask_single rO radd rmul conj half rinv n1 n2 ws1 ws2 N1 N2 w1 w2 Ninv1 Ninv2 (kern_mult rmul g) wtd stack env garbage full sub b) d r1 r2
-    = rmul (roll2 N1 N2 (s1 (ctx_pix sub j)) (s2 (ctx_pix sub j)) (upsample2 rO u (fun i j => rsub ((stack (nth j (index_map full sub) 0)) i j) (rmul (rmul ninv1 ninv2) (sum2 rO radd n1 n2 ((stack (nth j (index_map full sub) 0))))))) r1 r2) (rinv (bf_weights rO radd (ctx_n sub) (ctx_wt wtd sub))).
-Proof. intros. eapply (parallax_integer_shift_lemma R rO rI radd rmul rsub ropp Rth conj Cok half rinv n1 ws1 ninv1 n2 ws2 ninv2 Roks1 Roks2 N1 w1 Ninv1 N2 w2 Ninv2 Rok1 Rok2 u Hu HN1 HN2 Hws1 Hws2); eassumption. Qed.
+    = rmul (roll2 N1 N2 (s1 (ctx_pix sub j)) (s2 (ctx_pix sub j)) (upsample2 rO u (fun x1 x2 => rsub ((stack (nth j (index_map full sub) 0)) x1 x2) (rmul (rmul ninv1 ninv2) (sum2 rO radd n1 n2 ((stack (nth j (index_map full sub) 0))))))) r1 r2) (rinv (bf_weights rO radd (ctx_n sub) (ctx_wt wtd sub))).
+Proof. intros. eapply (parallax_integer_shift_lemma R rO rI radd rmul rsub ropp Rth conj Cok half rinv n1 ws1 ninv1 n2 ws2 ninv2 Roks1 Roks2 N1 w1 Ninv1 N2 w2 Ninv2 Rok1 Rok2 u Hu HN1 HN2 Hws1 Hws2 g wtd env garbage stack); try eassumption; try exact (fun P : img R => P). Qed.
 
 Lemma C04_parallax_shift_bf_main :
   forall (R : Type) (rO rI : R) (radd rmul rsub : R -> R -> R) (ropp : R -> R)
@@ -210,9 +210,9 @@ Lemma C04_parallax_shift_bf_main :
     (forall m i k, conj (stack m i k) = stack m i k) ->
     1 <= b -> r1 < N1 -> r2 < N2 ->
     corrected_bf rO radd (recon_mask_single rO radd rmul conj half rinv n1 n2 ws1 ws2 N1 N2 w1 w2 Ninv1 Ninv2 (kern_mult rmul g) wtd stack env garbage full sub b) r1 r2
-    = rmul (suml rO radd (map (fun j => roll2 N1 N2 (s1 (ctx_pix sub j)) (s2 (ctx_pix sub j)) (upsample2 rO u (fun i j => rsub ((stack (nth j (index_map full sub) 0)) i j) (rmul (rmul ninv1 ninv2) (sum2 rO radd n1 n2 ((stack (nth j (index_map full sub) 0))))))) r1 r2)
+    = rmul (suml rO radd (map (fun j => roll2 N1 N2 (s1 (ctx_pix sub j)) (s2 (ctx_pix sub j)) (upsample2 rO u (fun x1 x2 => rsub ((stack (nth j (index_map full sub) 0)) x1 x2) (rmul (rmul ninv1 ninv2) (sum2 rO radd n1 n2 ((stack (nth j (index_map full sub) 0))))))) r1 r2)
                                 (seq 0 (ctx_n sub)))) (rinv (bf_weights rO radd (ctx_n sub) (ctx_wt wtd sub))).
-Proof. intros. eapply (parallax_integer_shift_bf_lemma R rO rI radd rmul rsub ropp Rth conj Cok half rinv n1 ws1 ninv1 n2 ws2 ninv2 Roks1 Roks2 N1 w1 Ninv1 N2 w2 Ninv2 Rok1 Rok2 u Hu HN1 HN2 Hws1 Hws2); eassumption. Qed.
+Proof. intros. eapply (parallax_integer_shift_bf_lemma R rO rI radd rmul rsub ropp Rth conj Cok half rinv n1 ws1 ninv1 n2 ws2 ninv2 Roks1 Roks2 N1 w1 Ninv1 N2 w2 Ninv2 Rok1 Rok2 u Hu HN1 HN2 Hws1 Hws2 g wtd env garbage stack); try eassumption; try exact (fun P : img R => P). Qed.
 
 Lemma C04_parallax_shift_general_main :
   forall (R : Type) (rO rI : R) (radd rmul rsub : R -> R -> R) (ropp : R -> R)
@@ -228,6 +228,6 @@ Lemma C04_parallax_shift_general_main :
     = rmul (re_part radd rmul conj half
               (fmul2 rO radd rmul N1 w1 Ninv1 N2 w2 Ninv2
                  (fun k1 k2 => rmul (g (ctx_pix sub j) k1 k2) (env k1 k2))
-                 (upsample2 rO u (fun i j => rsub ((stack (nth j (index_map full sub) 0)) i j) (rmul (rmul ninv1 ninv2) (sum2 rO radd n1 n2 ((stack (nth j (index_map full sub) 0))))))) r1 r2))
+                 (upsample2 rO u (fun x1 x2 => rsub ((stack (nth j (index_map full sub) 0)) x1 x2) (rmul (rmul ninv1 ninv2) (sum2 rO radd n1 n2 ((stack (nth j (index_map full sub) 0))))))) r1 r2))
            (rinv (bf_weights rO radd (ctx_n sub) (ctx_wt wtd sub))).
-Proof. intros. eapply (parallax_multiplier_lemma R rO rI radd rmul rsub ropp Rth conj Cok half rinv n1 ws1 ninv1 n2 ws2 ninv2 Roks1 Roks2 N1 w1 Ninv1 N2 w2 Ninv2 Rok1 Rok2 u Hu HN1 HN2 Hws1 Hws2); eassumption. Qed.
+Proof. intros. eapply (parallax_multiplier_lemma R rO rI radd rmul rsub ropp Rth conj Cok half rinv n1 ws1 ninv1 n2 ws2 ninv2 Roks1 Roks2 N1 w1 Ninv1 N2 w2 Ninv2 Rok1 Rok2 u Hu HN1 HN2 Hws1 Hws2 g wtd env garbage stack); try eassumption; try exact (fun P : img R => P). Qed.
